@@ -12,7 +12,7 @@ TECHNIQUE = "runtime monitor: handler/scheduling/clock-write history of the real
 RULE = ("seeded random model programs (5-60 events; trees of handlers scheduling now / rel / abs / prebuilt events with "
         "priorities 1-10, exact time ties on a few hot instants, zero and -0.0 delays, events at and beyond the horizon, "
         "first events from construct_model and (30%) from a method registered with add_initial_method, cancel of pending / executed / own / not-yet-created events, illegal requests: negative, past, NaN, None, str) "
-        "on the float, int and Duration (mixed display units) clocks, a quarter of them driven through a bounded run before the final start; non-trivial = program with >=1 time tie with "
+        "on the float, int and Duration (mixed display units) clocks, a quarter of them driven through a bounded run before the final start, one in eight by step() alone, one in eight next to a second live simulator with its own model; non-trivial = program with >=1 time tie with "
         "different priorities, >=1 tie on (time, priority), >=1 cancel of a pending event and >=1 refused request; "
         "distinct = canonical program hash")
 ASSUMPTIONS = ["an illegal scheduling request is refused when any exception is raised and the pending size is unchanged",
@@ -32,7 +32,10 @@ def gen_case(rng, tier, i):
     # one case in four reaches the end through a bounded run first (the executed events must be the same; the horizon
     # rules themselves are C03's subject): the bound is a fraction of the run length added to the start time
     return {"prog": prog, "via_bound": rng.choice([None, None, None, 0.25, 0.5, 0.75, 1.25, 2.0]) if i % 4 == 3 else None,     # (a bound beyond the end is the end itself, events at the end included)
-            "via_steps": i % 8 == 5}        # one case in eight is driven by step() alone
+            "via_steps": i % 8 == 5,        # one case in eight is driven by step() alone
+            # one case in eight shares the process with a second, live simulator of the same kind (its own model, initialised
+            # after the judged one and run after it): two simulators have nothing in common
+            "neighbour": i % 8 == 2}
 
 
 def shard_teardown(tier, ctx):
@@ -54,6 +57,21 @@ def run_case(case, ctx):
         if out != "ok":
             ctx.viol(f"initialize-raises:{out}", where)
             return
+        nb = None
+        if case.get("neighbour"):
+            lit = (lambda v: [float(v), "s"]) if prog["clock"] == "duration" else (lambda v: int(v) if prog["clock"] == "int" else float(v))
+            nprog = {"clock": prog["clock"], "rep": {"start": lit(0), "warmup": lit(0), "length": lit(8)},
+                     "init": [["abs", lit(t), 5, f"n{t}"] for t in (1, 3, 3, 6, 9)], "handlers": {"n1": [["rel", lit(1), 7, "m2"]]}}
+            nb = Harness(nprog, "neighbour")
+            ctx.count("runs_next_to_a_second_live_simulator")
+            if nb.cmd("initialize") != "ok":
+                ctx.viol("initialize-raises:neighbour", where)
+                return
+            nb_pending = nb.snapshot()["pending"]
+            own_pending = h.snapshot()["pending"]
+            if own_pending != len(ref0_pending(prog)):
+                ctx.viol("pending-events-changed-by-another-simulator", {**where, "got": own_pending, "want": len(ref0_pending(prog))})
+                return
         if case.get("via_bound") is not None:
             from vlib.refdevs import tnum
             start_t, length = tnum(prog, prog["rep"]["start"]), tnum(prog, prog["rep"]["length"])
@@ -140,10 +158,34 @@ def run_case(case, ctx):
             if tn not in ctype:
                 ctx.viol("clock-type-inside-handler", {**where, "tag": tag, "type": tn})
                 return
+        if nb is not None:
+            # the neighbour was left alone by the judged run and now runs its own events
+            if nb.snapshot()["pending"] != nb_pending or nb.hlog:
+                ctx.viol("pending-events-changed-by-another-simulator", {**where, "neighbour_pending": nb.snapshot()["pending"], "want": nb_pending,
+                                                                         "neighbour_executed": nb.trace()})
+                return
+            nref = Ref(nb.prog)
+            nref.initialize()
+            nref.run()
+            if nb.cmd("start") != "ok" or not nb.wait_quiescent(20):
+                ctx.viol("hang:neighbour", {**where, "snapshot": nb.snapshot()})
+                return
+            if not compare_traces(ctx, nb.trace(), [(t, c) for t, c, _ in nref.trace], {**where, "simulator": "neighbour"}, what="neighbour"):
+                return
         ctx.nontrivial = _nontrivial(ref, h)
         ctx.seen("clock_kinds", prog["clock"])
     finally:
         h.cleanup()
+        if nb is not None:
+            nb.cleanup()
+
+
+def ref0_pending(prog):
+    """the reference's pending events right after initialize"""
+    from vlib.refdevs import Ref
+    r = Ref(prog)
+    r.initialize()
+    return r.pending
 
 
 def _action(prog, parent, idx):
